@@ -15,7 +15,8 @@ import (
 
 // HistCfg parameterises a random history on one file.
 type HistCfg struct {
-	Tick          *int64 // progress counter for the watchdog (set by the caller)
+	Tick          *int64            // progress counter for the watchdog (set by the caller)
+	Script        func(e *fenv.Env) // fixed scenario executed before the random transactions (Txs may be 0)
 	Name          string
 	Seed          int64
 	PageSize      uint32
@@ -188,6 +189,9 @@ func runHistoryWith(c HistCfg, afterOpen func(e *fenv.Env), atEnd func(e *fenv.E
 	}
 	if afterOpen != nil {
 		afterOpen(e)
+	}
+	if c.Script != nil {
+		c.Script(e)
 	}
 	if atEnd != nil {
 		defer func() {
